@@ -13,7 +13,7 @@ EXPLANATION = (
     "matches, which leads to RawValueStrEmitter::serialize_str -> write_raw_value with no escaping callee; "
     "(R13.3) ParseStatus -> HasEsc is total, as_str strips quotes only under no_escaped(), the escape "
     "status returned by the string skippers is set on every path that has seen a backslash; (R13.4) the "
-    "borrowed-to-owned conversion derives every result from the raw text of its source. Does NOT decide "
+    "borrowed-to-owned conversion derives every result from the raw text of its source; (R13.11) every number alphabet of the crate accepts the exponent marker in both cases. Does NOT decide "
     "accessor results or mutation histories."
 )
 ASSUMPTIONS = ["rustc MIR and callee resolution", "RFC 8259 first-byte alphabet of values"]
